@@ -143,6 +143,7 @@ type conn struct {
 	held       bool
 	followUp   bool
 	broken     bool // a write failed while reads were held
+	groupTag   string
 
 	steps []Step
 	trace []string
@@ -233,6 +234,9 @@ func (c *conn) logf(format string, args ...any) {
 
 func (c *conn) violate(class, format string, args ...any) {
 	if c.fail == nil {
+		if c.groupTag != "" {
+			class = c.groupTag // a predicate on the input (see refsm.go Verdict.Tag)
+		}
 		c.fail = &failure{"violation", class, fmt.Sprintf(format, args...)}
 		c.logf("VIOLATION[%s] %s", class, c.fail.msg)
 	}
@@ -349,6 +353,9 @@ func (c *conn) exec(s Step) {
 			p.assumed = true
 		}
 		c.pending = append(c.pending, p)
+		if v.Tag != "" && c.groupTag == "" {
+			c.groupTag = v.Tag
+		}
 		c.logf("> %s [%s]  expect %s", v.Desc, s.Label, v)
 		if v.Graceful {
 			c.graceOK = true
@@ -501,7 +508,11 @@ func (c *conn) judge(upto int) {
 			}
 		}
 		if !(e.Is(http2.FramePing)) {
-			c.logf("< %v", e)
+			if e.HeadersErr != "" {
+				c.logf("< %v  [HPACK decode error in the harness peer: %s; fragment %x]", e, e.HeadersErr, e.Data)
+			} else {
+				c.logf("< %v", e)
+			}
 		}
 	}
 	c.cursor = upto + 1
@@ -533,7 +544,7 @@ func (c *conn) judge(upto int) {
 			switch {
 			case v.AllowOK:
 				out = h2peer.OutOK
-			case p.assumed && hasConnErr(reacts[j:]):
+			case p.assumed && (hasConnErr(reacts[j:]) || c.eof):
 				// sent without a fence in between (reads held): the RST_STREAM this frame
 				// earned was still queued when a later frame of the group killed the
 				// connection; a connection error supersedes it.
@@ -645,6 +656,9 @@ func (c *conn) judge(upto int) {
 		c.awaitStart(sid)
 	}
 	c.checkStarts()
+	if c.fail == nil {
+		c.groupTag = ""
+	}
 }
 
 func hasConnErr(rs []reaction) bool {
@@ -805,6 +819,9 @@ func (c *conn) checkStarts() {
 		rs := c.ref.Streams[s.SID]
 		if rs == nil || !rs.MayStart {
 			st := c.ref.StateOf(s.SID)
+			if rs != nil && rs.Rejected && c.groupTag == "" {
+				c.groupTag = "stream-opened-by-rejected-headers"
+			}
 			c.violate("handler-not-allowed:"+st.String(), "handler started for stream %d, for which the reference allows none (reference stream state: %v; dead=%v graceful-goaway=%v last=%d)", s.SID, st, c.ref.Dead, c.ref.ServerGoAway, c.ref.ServerLast)
 		}
 	}
